@@ -338,9 +338,20 @@ inline void build_obj(osmium::memory::Buffer& buffer, const Obj& o) {
     buffer.commit();
 }
 
-inline osmium::memory::Buffer build_buffer(const std::vector<Obj>& objs, size_t from, size_t to) {
-    osmium::memory::Buffer buffer{1024, osmium::memory::Buffer::auto_grow::yes};
-    for (size_t i = from; i < to && i < objs.size(); ++i) { build_obj(buffer, objs[i]); }
+// Builds objs[from..] into one buffer and returns the index of the first object not included.
+// The buffer never grows while a builder is alive: ChangesetDiscussionBuilder keeps a raw pointer to the
+// comment across an append (osm_object_builder.hpp add_comment/add_comment_text), which dangles when an
+// auto_grow::yes buffer reallocates in between (seen as an ASan heap-use-after-free while generating data;
+// it belongs to C04, which is not a simulation target, so the generator simply avoids growth).
+inline osmium::memory::Buffer build_buffer(const std::vector<Obj>& objs, size_t from, size_t to, size_t* next = nullptr) {
+    constexpr size_t capacity = 128UL * 1024UL;
+    osmium::memory::Buffer buffer{capacity, osmium::memory::Buffer::auto_grow::no};
+    size_t i = from;
+    for (; i < to && i < objs.size(); ++i) {
+        if (buffer.committed() > capacity / 2) { break; } // one object is far below 64 KiB
+        build_obj(buffer, objs[i]);
+    }
+    if (next) { *next = i; }
     return buffer;
 }
 
@@ -506,6 +517,107 @@ inline std::string render_header(const osmium::io::Header& h) {
         o += kv.first + "=" + kv.second;
     }
     return o;
+}
+
+// structured digest: metadata fields separately from the content, for read_meta / entity-mask comparisons
+struct Rec {
+    char type = '?';
+    int64_t id = 0;
+    uint32_t version = 0, changeset = 0, ts = 0, uid = 0;
+    bool visible = true;
+    std::string user;
+    std::string content;
+    bool operator==(const Rec& o) const {
+        return type == o.type && id == o.id && version == o.version && changeset == o.changeset && ts == o.ts && uid == o.uid &&
+               visible == o.visible && user == o.user && content == o.content;
+    }
+    bool operator!=(const Rec& o) const { return !(*this == o); }
+    std::string str() const {
+        std::string s;
+        s += type;
+        s += std::to_string(id) + " v" + std::to_string(version) + (visible ? " V" : " D") + " c" + std::to_string(changeset) + " t" + std::to_string(ts) + " i" + std::to_string(uid) + " u'" + user + "' " + content;
+        return s;
+    }
+};
+
+inline Rec make_rec(const osmium::OSMEntity& e) {
+    Rec r;
+    std::string& o = r.content;
+    switch (e.type()) {
+        case osmium::item_type::node: {
+            const auto& n = static_cast<const osmium::Node&>(e);
+            render_loc(o, n.location());
+            render_tags(o, n.tags());
+            break;
+        }
+        case osmium::item_type::way: {
+            const auto& w = static_cast<const osmium::Way&>(e);
+            render_tags(o, w.tags());
+            o += " N[";
+            for (const auto& nr : w.nodes()) {
+                o += std::to_string(nr.ref());
+                render_loc(o, nr.location());
+                o += ' ';
+            }
+            o += ']';
+            break;
+        }
+        case osmium::item_type::relation: {
+            const auto& rel = static_cast<const osmium::Relation&>(e);
+            render_tags(o, rel.tags());
+            o += " M[";
+            for (const auto& m : rel.members()) {
+                o += osmium::item_type_to_char(m.type());
+                o += std::to_string(m.ref());
+                o += '/';
+                put_str(o, m.role());
+                o += ' ';
+            }
+            o += ']';
+            break;
+        }
+        case osmium::item_type::changeset: {
+            r.type = 'c';
+            r.content = render(e);
+            r.id = static_cast<const osmium::Changeset&>(e).id();
+            return r;
+        }
+        default:
+            r.content = "?item-type-" + std::to_string(static_cast<int>(e.type()));
+            return r;
+    }
+    const auto& obj = static_cast<const osmium::OSMObject&>(e);
+    r.type = osmium::item_type_to_char(obj.type());
+    r.id = obj.id();
+    r.version = obj.version();
+    r.changeset = obj.changeset();
+    r.ts = obj.timestamp().seconds_since_epoch();
+    r.uid = obj.uid();
+    r.visible = obj.visible();
+    r.user = obj.user();
+    return r;
+}
+
+inline unsigned digest_recs(const osmium::memory::Buffer& buffer, std::vector<Rec>& out) {
+    unsigned mask = 0;
+    for (const auto& item : buffer) {
+        switch (item.type()) {
+            case osmium::item_type::node:
+            case osmium::item_type::way:
+            case osmium::item_type::relation:
+            case osmium::item_type::changeset:
+                out.push_back(make_rec(static_cast<const osmium::OSMEntity&>(item)));
+                mask |= 1U << static_cast<unsigned>(item.type());
+                break;
+            default: {
+                Rec r;
+                r.content = "?item-type-" + std::to_string(static_cast<int>(item.type()));
+                out.push_back(r);
+                mask |= 1U << 31;
+            }
+        }
+    }
+    return mask;
 }
 
 } // namespace model
